@@ -393,6 +393,37 @@ psRes_t __wrap_psChacha20Poly1305IetfInit(psChacha20Poly1305Ietf_t *c, const uns
     if (env_crypto_hook) env_crypto_hook(ENV_OP_CHACHA_INIT, c, key, 32, NULL, 0);
     return __real_psChacha20Poly1305IetfInit(c, key);
 }
+/* record MAC of the CBC suites: which (key, sequence number) is bound into this record */
+int32_t __real_tlsHMACSha1(ssl_t *ssl, int32 mode, unsigned char type, unsigned char *data, uint32 len, unsigned char *mac);
+int32_t __real_tlsHMACSha2(ssl_t *ssl, int32 mode, unsigned char type, unsigned char *data, uint32 len, unsigned char *mac, int32 hashSize);
+static void mac_note(ssl_t *ssl, int32 mode, int keylen)
+{
+    unsigned char seq[8];
+    const unsigned char *key = mode == HMAC_CREATE ? ssl->sec.writeMAC : ssl->sec.readMAC;
+    if (!env_crypto_hook || !key)
+    {
+        return;
+    }
+    memcpy(seq, mode == HMAC_CREATE ? ssl->sec.seq : ssl->sec.remSeq, 8);
+#ifdef USE_DTLS
+    if (ACTV_VER(ssl, v_dtls_any))
+    {
+        memcpy(seq, mode == HMAC_CREATE ? ssl->epoch : ssl->rec.epoch, 2);
+        memcpy(seq + 2, mode == HMAC_CREATE ? ssl->rsn : ssl->rec.rsn, 6);
+    }
+#endif
+    env_crypto_hook(mode == HMAC_CREATE ? ENV_OP_MAC_CREATE : ENV_OP_MAC_VERIFY, ssl, key, keylen, seq, 8);
+}
+int32_t __wrap_tlsHMACSha1(ssl_t *ssl, int32 mode, unsigned char type, unsigned char *data, uint32 len, unsigned char *mac)
+{
+    mac_note(ssl, mode, SHA1_HASH_SIZE);
+    return __real_tlsHMACSha1(ssl, mode, type, data, len, mac);
+}
+int32_t __wrap_tlsHMACSha2(ssl_t *ssl, int32 mode, unsigned char type, unsigned char *data, uint32 len, unsigned char *mac, int32 hashSize)
+{
+    mac_note(ssl, mode, hashSize);
+    return __real_tlsHMACSha2(ssl, mode, type, data, len, mac, hashSize);
+}
 psResSize_t __wrap_psChacha20Poly1305IetfEncrypt(psChacha20Poly1305Ietf_t *c, const unsigned char *pt, psSizeL_t ptlen,
     const unsigned char *iv, const unsigned char *aad, psSizeL_t aadlen, unsigned char *ct)
 {
